@@ -217,6 +217,23 @@ pub fn record(args: &Args) {
             if c.is_empty() {
                 c.push(vec![(rng.below(4), rng.coin())]);
             }
+            // one file in three: the same shape on DIMACS indices scattered up to ~135, with pairs of indices that agree modulo 64 and
+            // clause pairs that are copies of each other shifted by 64 (a large file; TLC evaluates the emitted diagram over the
+            // indices that occur: at most 6 of them)
+            let wide = rng.chance(1, 3);
+            if wide {
+                c.truncate(3);
+                let shift: Vec<usize> = (0..5).map(|v| if v % 2 == 0 { v } else { v + 127 + rng.below(2) }).collect();
+                let used: Vec<usize> = { let mut u: Vec<usize> = c.iter().flatten().map(|(v, _)| *v).collect(); u.sort(); u.dedup(); u };
+                let mut w: Vec<Vec<(usize, bool)>> = c.iter().map(|cl| cl.iter().map(|(v, p)| (shift[*v], *p)).collect()).collect();
+                // a shifted copy of the first clause (only while at most 6 indices occur in all: TLC's universe here)
+                let first: Vec<(usize, bool)> = c[0].iter().map(|(v, p)| (*v + 64, *p)).collect();
+                let extra: std::collections::BTreeSet<usize> = first.iter().map(|(v, _)| *v).collect();
+                if used.len() + extra.len() <= 6 {
+                    w.push(first);
+                }
+                c = w;
+            }
             let lits: Vec<Vec<i64>> = c.iter().map(|cl| cl.iter().map(|(v, p)| if *p { *v as i64 + 1 } else { -(*v as i64 + 1) }).collect()).collect();
             let nv = c.iter().flatten().map(|(v, _)| v + 1).max().unwrap();
             let mut text = format!("p cnf {} {}\n", nv, lits.len());
@@ -229,6 +246,12 @@ pub fn record(args: &Args) {
             std::fs::write(&f_cnf, &text).unwrap();
             let ord = if rng.coin() { "auto_minfill" } else { "auto_force" };
             let mut ev = json!({"ev": "cli_c2b", "in": lits, "order": ord});
+            if wide {
+                let mut vars: Vec<usize> = c.iter().flatten().map(|(v, _)| *v).collect();
+                vars.sort();
+                vars.dedup();
+                ev["vars"] = json!(vars); // the indices that occur (0-based), ascending: TLC's universe for this event
+            }
             match run(&format!("{bindir}/bottomup_cnf_to_bdd"), &["-f", &f_cnf, "--order", ord]) {
                 Ok(stdout) => match serde_json::from_str::<Value>(stdout.trim()) {
                     Ok(j) => ev["json"] = j,
